@@ -257,6 +257,9 @@ def child_run(root, items, models, keys, stop_at, logpath):
             if ev == 'os.symlink':
                 p = args[1]
                 extra = args[0]
+            elif ev == 'os.rename':
+                p = args[0]
+                extra = args[1]
             else:
                 p = args[0] if args else None
                 extra = None
